@@ -365,6 +365,7 @@ def extract_fn(repo, blk, meta, mode):
                 continue
             raise X.LostAnchor('%s::%s: substitution pattern `%s` not found' % (rel, kv['name'], pat))
     item = X.desugar_asref_map(item, log)
+    item = X.desugar_ctor_fn_value(item, log)
     item = X.desugar_get_or_insert_with(item, log)
     item = X.desugar_mut_self(item, kv['name'], log)
     if blk.qmark:
